@@ -350,7 +350,10 @@ def judge_dpd(obs, peer):
 
 def run_lifetime(a_hi, peer):
     """A's IKE_SA lifetime = LIFETIME (+ jitter seam at an extreme); peer answers / is silent / always collides"""
-    w = idle_world(a_lifetime=LIFETIME, a_dpd=3600, a_hi=a_hi, b_lifetime=LIFETIME if peer == 'collides' else 100000)
+    w = idle_world(a_lifetime=LIFETIME, a_dpd=3600, a_hi=a_hi, b_lifetime=LIFETIME if peer.startswith('collides') else 100000)
+    if peer == 'collides-once':
+        # the two ends draw different random delays before they try again after TEMPORARY_FAILURE (what the jitter is for)
+        w.endpoints['A'].uniform_hi, w.endpoints['B'].uniform_hi = False, True
     t0 = w.clock
     first_spi = bytes(w.endpoints['A'].controller.ike_sas[0].my_spi)
     rekey_at = delete_at = gone_at = None
@@ -389,7 +392,7 @@ def judge_lifetime(obs, a_hi, peer):
         out.append(('no-rekey', 'IKE_SA never started its rekey (lifetime %d s)' % LIFETIME))
     elif not (lo - 0.001 <= obs['rekey_at'] <= hi + 0.001):
         out.append(('rekey-time', 'IKE_SA rekey started at %.0f s, allowed [%d, %d]' % (obs['rekey_at'], lo, hi)))
-    if peer == 'answering':
+    if peer in ('answering', 'collides-once'):
         if obs['gone_at'] is None:
             out.append(('old-ike-sa-stays', 'rekeyed IKE_SA still held %d s later' % 70))
         if not any(st == 'ESTABLISHED' and n == 1 for st, n in obs['a_sas']):
@@ -430,7 +433,7 @@ def dpd_cases():
     yield ('dpd', 0, 'silent-busy-sockets')
     yield ('dpd-childless', 0, 'silent')
     for a_hi in (False, True):
-        for peer in ('answering', 'silent', 'collides'):
+        for peer in ('answering', 'silent', 'collides', 'collides-once'):
             yield ('life', a_hi, peer)
 
 
